@@ -1,7 +1,7 @@
 """py2meth: translate straight-line methods / functions whose statements are library calls into Lean, the library calls getting
 their meaning from a hand-written "world" (`Model/LossWorld.lean`, `Model/DistPublicWorld.lean`).  Stdlib `ast` only; the source is
 parsed, never imported.  Sibling of `py2loop.py` (same discipline, different subset): every statement of every function listed in
-a typing sheet (`targets_losses.py`, `targets_dist_public.py`) is translated or the function is REFUSED (an error entry in the
+a typing sheet (`targets_losses.py`, `targets_dist_public.py`, `targets_families.py` with world `Model/FamiliesWorld.lean`) is translated or the function is REFUSED (an error entry in the
 generation report = a broken tie).
 
 The translation is TYPED: the sheet gives the Lean type of every parameter / class field and a table of primitives
@@ -17,6 +17,14 @@ types: `dist.log_prob(x, c)` on a point and on a batch are different world funct
                (`()`, `(n,)`, `(*s, 2)`), list displays, `{"k": …}[m.__name__]` (a `match` on an enumeration), `a if c else b`,
                `x or None`, f-strings of strings, single-generator comprehensions, `vmap(f)(…)` / `eqx.filter_vmap(f)(…)`,
                calls of generated functions, and the primitives of the sheet.
+
+`Ctor` items (sheet `targets_families.py`): a class `__init__` translated statement by statement — local assignments, `self.<f> = e`,
+`self.<f>, x = e`, reads of already assigned `self.<f>`, calls of other generated constructors with positional / keyword arguments
+(`Affine(loc=minval, scale=maxval - minval)`), `*(f(v) for v in (e1, …, ek))` over a tuple DISPLAY (= the k arguments in order), list
+displays whose members are injected into a declared sum type (`UPCAST`), exact source texts containing a lambda (`TEXT_PRIMS`, possibly
+raising); the result is a structure of the WORLD built with named fields, every attribute assigned exactly once, anything else refused.
+An import alias may be expected per file (`IMPORTS[alias] = {file: binding}`), and a generated constructor is recognised in a client
+module only if its name is bound there to what the sheet says (`bound_as`).
 
 A function that contains a guard or calls a primitive that can raise is emitted in the sheet's monad (`Option` / `Except PyErr`)
 with explicit `bind`s; every other function is emitted pure.
@@ -190,6 +198,24 @@ class Cls:
 
 
 @dataclasses.dataclass
+class Ctor:
+    """a class whose `__init__` is translated statement by statement (local assignments, `self.<f> = e`, `self.<f>, x = e`, calls of
+    raising primitives): the attribute declarations are a structure of the WORLD (`ty`, `fields`); the generated `<lean>` builds it
+    with named fields (every field exactly once).  Registered as a callable under `call_as` (the class name); `bound_as`: file ->
+    what that name must be bound to at module level of a client file (checked like every import)."""
+    file: str
+    name: str
+    lean: str
+    ty: object
+    fields: list
+    init_params: list
+    binders: object = None
+    call_as: str = ""
+    bound_as: dict = dataclasses.field(default_factory=dict)
+    tyvars: tuple = ()
+
+
+@dataclasses.dataclass
 class V:
     ty: object = None
     code: str = ""
@@ -238,6 +264,7 @@ class Tr:
         self.frozen = set()             # names captured by a nested def: may not be reassigned afterwards
         self.ret = None
         self.unused = set()
+        self.ctor_fields = None         # inside a `Ctor`: attribute name -> V of the `self.<f>` assigned so far
 
     # ------------------------------------------------------------------ helpers
     def M(self, key):
@@ -453,6 +480,9 @@ class Tr:
             if not n.elts:
                 return V(kind="empty")
             items = [self.lean(self.ex(e)) for e in n.elts]
+            up = getattr(self.sheet, "UPCAST", {})
+            if any(x.ty != items[0].ty for x in items) and all(x.ty in up for x in items):
+                items = [V(up[x.ty][0], up[x.ty][1].format(paren(x.code))) for x in items]   # members of a declared sum type
             if any(x.ty != items[0].ty for x in items):
                 raise Refuse("list display with elements of different types")
             return V(L(items[0].ty), "[" + ", ".join(x.code for x in items) + "]")
@@ -526,8 +556,12 @@ class Tr:
         return V(kind="tuple", items=items)
 
     def attribute(self, n):
+        if self.ctor_fields is not None and isinstance(n.value, ast.Name) and n.value.id == "self":
+            if n.attr in self.ctor_fields:
+                return self.ctor_fields[n.attr]
+            raise Refuse(f"`self.{n.attr}` is read before `__init__` assigns it")
         root = dotted_root(n)
-        if root is not None and root not in self.env:
+        if root is not None and root not in self.env and not (root == "self" and self.ctor_fields is not None):
             text = ast.unparse(n)
             self.need_root(text)
             return self.match_prim(f"const:{text}", [], what=text)
@@ -535,7 +569,10 @@ class Tr:
         head = v.ty[0] if isinstance(v.ty, tuple) else v.ty
         g = self.gen
         if (head, n.attr) in g.fields:
-            return V(g.fields[(head, n.attr)], f"{paren(v.code)}.{n.attr}")
+            ft = g.fields[(head, n.attr)]
+            if isinstance(ft, tuple) and ft and ft[0] == "arg":   # the field's type is the i-th argument of the structure's type
+                ft = v.ty[ft[1]]
+            return V(ft, f"{paren(v.code)}.{n.attr}")
         info = g.methods.get((head, n.attr))
         if info is not None and info["prop"]:
             return self.call_gen(info, [v], [], what=ast.unparse(n))
@@ -642,20 +679,50 @@ class Tr:
 
     # ------------------------------------------------------------------ calls
     def args_of(self, n):
-        if any(isinstance(a, ast.Starred) for a in n.args) or any(k.arg is None for k in n.keywords):
-            raise Refuse(f"`*` / `**` in the call `{ast.unparse(n)[:60]}`")
-        return [(self.ex(a) if not (isinstance(a, ast.Constant) and isinstance(a.value, str)) else self.ex(a), a) for a in n.args]
+        if any(k.arg is None for k in n.keywords):
+            raise Refuse(f"`**` in the call `{ast.unparse(n)[:60]}`")
+        out = []
+        for a in n.args:
+            if isinstance(a, ast.Starred):
+                out += self.star_args(a, n)
+            else:
+                out.append((self.ex(a), a))
+        return out
+
+    def star_args(self, a, n):
+        """`*(f(v) for v in (e1, …, ek))` — a generator over a tuple DISPLAY — is the k arguments `f(e1), …, f(ek)` in that order"""
+        g = a.value
+        if not (isinstance(g, ast.GeneratorExp) and len(g.generators) == 1 and not g.generators[0].ifs and not g.generators[0].is_async
+                and isinstance(g.generators[0].target, ast.Name) and isinstance(g.generators[0].iter, ast.Tuple)
+                and not any(isinstance(e, ast.Starred) for e in g.generators[0].iter.elts)):
+            raise Refuse(f"`*` in the call `{ast.unparse(n)[:60]}` other than `*(f(v) for v in (e1, …, ek))`")
+        name = g.generators[0].target.id
+        saved = self.env.get(name)
+        out = []
+        try:
+            for e in g.generators[0].iter.elts:
+                self.env[name] = self.lean(self.ex(e))
+                out.append((self.ex(g.elt), g.elt))
+        finally:
+            if saved is None:
+                self.env.pop(name, None)
+            else:
+                self.env[name] = saved
+        return out
 
     def call(self, n):
         text = ast.unparse(n)
         if text in self.sheet.TEXT_PRIMS:   # an exact source text the sheet gives a meaning to (free names checked)
-            uses, ret, code = self.sheet.TEXT_PRIMS[text]
+            uses, ret, code = self.sheet.TEXT_PRIMS[text][:3]
+            text_monadic = len(self.sheet.TEXT_PRIMS[text]) > 3 and self.sheet.TEXT_PRIMS[text][3]   # the text can raise
             for nm, ty in uses.items():
                 if nm not in self.env or (ty is not None and self.lean(self.env[nm]).ty != ty):
                     raise Refuse(f"`{text}`: `{nm}` is not the {ty} the sheet expects")
             for x in ast.walk(n):
                 if isinstance(x, ast.Name):
                     self.need_root(x.id)
+            if text_monadic:
+                return self.emit_bind(self.tmp(), ret, code)
             return V(ret, code)
         f = n.func
         ftext = ast.unparse(f)
@@ -1252,10 +1319,13 @@ class Gen:
                     raise Refuse(f"the builtin `{alias}` is rebound at module level in {file} (`{b[alias]}`)")
                 continue
             want = self.sheet.IMPORTS[alias]
+            if isinstance(want, dict):      # per file
+                want = want.get(file)
             if b.get(alias) != want or count.get(alias, 0) != 1:
                 raise Refuse(f"`{alias}` is bound to `{b.get(alias)}` in {file} ({count.get(alias, 0)} bindings), the sheet expects `{want}`")
         for name, info in self.needed_fns.get(file, {}).items():
             want = f"<def {name}>" if info["file"] == file else info["file"][:-3].replace("/", ".") + "." + name
+            want = info.get("bound_as", {}).get(file, want)
             if b.get(name) != want or count.get(name, 0) != 1:
                 raise Refuse(f"`{name}` is bound to `{b.get(name)}` in {file}, expected `{want}`")
 
@@ -1304,6 +1374,67 @@ class Gen:
         for f, t in c.fields:
             self.fields[(c.ty[0] if isinstance(c.ty, tuple) else c.ty, f)] = t
 
+    def do_ctor(self, c):
+        """`__init__` statement by statement; the result is the world's structure `c.ty` built with named fields"""
+        node = self.find(c.file, c.name + ".__init__")
+        fn = Fn(c.file, c.name + ".__init__", c.lean, c.init_params, binders=c.binders, tyvars=c.tyvars)
+        tr = Tr(self, fn, node, c.lean, c.init_params)
+        tr.check_signature(node, True)
+        if node.decorator_list:
+            raise Refuse("decorated `__init__`")
+        tr.enter()
+        tr.ctor_fields = {}
+        ftypes = dict(c.fields)
+
+        def set_field(f, v):
+            if f in tr.ctor_fields or f not in ftypes:
+                raise Refuse(f"`__init__` assigns `self.{f}` (twice, or not an attribute of the sheet)")
+            v = tr.coerce(v, ftypes[f])
+            tr.ctor_fields[f] = tr.emit_let(f"self_{f}", v)
+
+        def is_self_attr(t):
+            return isinstance(t, ast.Attribute) and isinstance(t.value, ast.Name) and t.value.id == "self"
+
+        for st in node.body:
+            if isinstance(st, ast.Expr) and isinstance(st.value, ast.Constant) and isinstance(st.value.value, str):
+                continue
+            if not (isinstance(st, ast.Assign) and len(st.targets) == 1):
+                raise Refuse(f"`__init__` statement {type(st).__name__}: `{ast.unparse(st)[:60]}`")
+            tgt = st.targets[0]
+            if is_self_attr(tgt):
+                set_field(tgt.attr, tr.ex(st.value))
+            elif isinstance(tgt, ast.Tuple) and any(is_self_attr(e) for e in tgt.elts):
+                if not all(is_self_attr(e) or isinstance(e, ast.Name) for e in tgt.elts):
+                    raise Refuse(f"assignment target `{ast.unparse(tgt)}`")
+                v = tr.lean(tr.ex(st.value))
+                if not (isinstance(v.ty, tuple) and v.ty[0] == "Tup" and len(v.ty) - 1 == len(tgt.elts)):
+                    raise Refuse(f"unpacking `{ast.unparse(st.value)[:50]}` into {len(tgt.elts)} targets")
+                t = v if re.fullmatch(r"t\d+", v.code) else tr.emit_let(tr.tmp(), v, ascribe=False)
+                for i, e in enumerate(tgt.elts):
+                    x = V(v.ty[1 + i], proj(t.code, i, len(tgt.elts)))
+                    if is_self_attr(e):
+                        set_field(e.attr, x)
+                    else:
+                        tr.bind_name(e.id, x)
+            else:
+                tr.do_assign(st)
+        if set(tr.ctor_fields) != set(ftypes):
+            raise Refuse(f"`__init__` does not assign exactly the attributes of the sheet (missing {sorted(set(ftypes) - set(tr.ctor_fields))})")
+        monadic = tr.blk.monadic
+        final = "{ " + ", ".join(f"{f} := {tr.ctor_fields[f].code}" for f, _ in c.fields) + " }"
+        body = tr.compose(tr.blk.lines, final, monadic)
+        binders = self.sheet.BINDERS if c.binders is None else c.binders
+        ptxt = " ".join(f"({tr.lname(p)} : {self.lean_ty(t)})" for p, t in c.init_params if t != UNUSED)
+        rty = self.lean_ty(c.ty)
+        if monadic:
+            rty = self.sheet.MONAD["type"].format(paren(rty))
+        self.emit("\n".join([f"/-- `{c.file}` :: `{c.name}.__init__` -/",
+                             f"def {c.lean} {binders}{' ' if binders else ''}{ptxt} : {rty} :=", "  " + body, ""]))
+        self.check_bindings(c.file)
+        self.funcs[c.call_as or c.name] = dict(lean=c.lean, params=list(c.init_params), ret=c.ty, monadic=monadic, usesW="(W :" in binders,
+                                               tyvars=c.tyvars, prop=False, kind="top", captured=[], captured_py=[], file=c.file,
+                                               bound_as=dict(c.bound_as))
+
     def run(self):
         sheet, errors = self.sheet, []
         for (head, f), t in getattr(sheet, "FIELDS", {}).items():
@@ -1327,6 +1458,9 @@ class Gen:
             try:
                 if isinstance(item, Cls):
                     self.do_class(item)
+                    continue
+                if isinstance(item, Ctor):
+                    self.do_ctor(item)
                     continue
                 node = self.find(item.file, item.qual)
                 is_method = "." in item.qual
@@ -1360,11 +1494,13 @@ class Gen:
                         self.refused.add((item.self_ty[0] if isinstance(item.self_ty, tuple) else item.self_ty, item.qual.split(".")[-1]))
                     else:
                         self.refused_funcs.add(item.qual)
+                if isinstance(item, Ctor):
+                    self.refused_funcs.add(item.call_as or item.name)
         text = "\n".join(list(sheet.HEADER) + self.out + [f"end {sheet.NAMESPACE}", ""])
         return {"text": text, "errors": errors, "targets": [i.lean for i in sheet.ITEMS]}
 
 
-SHEETS = ["targets_losses", "targets_dist_public", "targets_jaxtr"]
+SHEETS = ["targets_losses", "targets_dist_public", "targets_jaxtr", "targets_families"]
 
 
 def generate(repo: str) -> dict:
